@@ -264,7 +264,7 @@ def run(run):
                         chunks, context = [f1, bad], [(ctx1[0], ctx1[1])]
                     else:
                         chunks, context = [bad, f2], [(ctx2[0], ctx2[1])]
-                    if idx % 7 == 0 and framing != 'rtu':
+                    if idx % 7 == 0:
                         chunks = [b''.join(chunks)]          # everything in one read
                     case = {'framing': framing, 'dir': d, 'chunks': chunks, 'context': context, 'corruption': list(label), 'original': frame}
                     ok = check(run, case)
